@@ -171,6 +171,18 @@ func genC36(g *gen) {
 	g.line("(* AppendConfig: os.ReadFile(srcBinary) comes before the destination is opened; the source is not streamed *)")
 	g.line("Definition gen_append_reads_source_before_opening_dst : bool := %s.", coqBool(readAll != token.NoPos && openDst != token.NoPos && readAll < openDst))
 	g.line("Definition gen_append_streams_source : bool := %s.", coqBool(hasCall(ac, "io.Copy") || hasCall(ac, "os.Open") || hasCall(ac, "io.CopyN")))
+	// the destination is truncated when it is opened (an older, longer file must not shine through)
+	trunc := false
+	if ac != nil && ac.Body != nil {
+		ast.Inspect(ac.Body, func(n ast.Node) bool {
+			if call, ok := n.(*ast.CallExpr); ok && strings.ReplaceAll(src(call.Fun), " ", "") == "os.OpenFile" && len(call.Args) >= 2 && src(call.Args[0]) == "dstBinary" {
+				fl := src(call.Args[1])
+				trunc = strings.Contains(fl, "os.O_TRUNC") && strings.Contains(fl, "os.O_CREATE") && !strings.Contains(fl, "os.O_APPEND")
+			}
+			return true
+		})
+	}
+	g.line("Definition gen_append_truncates_dst : bool := %s.", coqBool(trunc))
 	cp := findFunc(f, "", "CopyBinaryWithoutConfig")
 	readOrig := firstCall(cp, func(fun string, _ *ast.CallExpr) bool { return fun == "io.ReadFull" || fun == "os.ReadFile" })
 	writeDst := firstCall(cp, func(fun string, c *ast.CallExpr) bool {
